@@ -28,12 +28,17 @@ class RandomSource(abc.ABC):
     ) -> T:
         acc_weights: list[int] = [int(x * 100000) for x in accumulate(weights)]
         total = acc_weights[-1]
-        rand_value: float = self.randint(0, total)
+        if total <= 0:
+            # No option has a positive weight: fall back to a uniform choice.
+            return self.choice(choices)
+        # Draw in [0, total - 1], so that option i is selected for exactly
+        # acc_weights[i] - acc_weights[i - 1] values (none, if its weight is zero).
+        rand_value: int = self.randint(0, total - 1)
 
         for choice, acc in zip(choices, acc_weights):
             if rand_value < acc:
                 return choice
-        return choices[0]
+        return choices[-1]
 
     def shuffle(self, lst: list[T]):
         for i in reversed(range(1, len(lst))):
